@@ -78,8 +78,8 @@ class AbsPDF:
     @contextlib.contextmanager
     def temp_params(self, var):
         params = self.get_params()
-        self.set_params(var)
         try:
+            self.set_params(var)
             yield var
         finally:
             self.set_params(params)
